@@ -6,6 +6,29 @@ import TT.Lemmas.Extract
 namespace TT.Props.C06
 open TT TT.Tree TT.Spec TT.Lemmas.Extract
 
+/-! ### a concrete discontinuous tree used in the examples: `(S (VP saw/1 up/4 it/3) he/2 (NP it/7 now/6))` -/
+
+/-- the VP has the gap `2` (two blocks `[1]`, `[3,4]`), the root the gap `5` (blocks `[1..4]`, `[6,7]`);
+    storage order differs from token order everywhere -/
+def exT : Tree :=
+  node { label := "S".toList }
+    [node { label := "VP".toList }
+       [leaf 1 { label := "V".toList, word := some "saw".toList },
+        leaf 4 { label := "ADV".toList, word := some "up".toList },
+        leaf 3 { label := "N".toList, word := some "it".toList }],
+     leaf 2 { label := "N".toList, word := some "he".toList },
+     node { label := "NP".toList }
+       [leaf 7 { label := "N".toList, word := some "it".toList },
+        leaf 6 { label := "ADV".toList, word := some "now".toList }]]
+
+def exF : Func := ["S".toList, "VP".toList, "N".toList, "NP".toList]
+def exL : Lin := [[(0, 0), (1, 0), (0, 1)], [(2, 0)]]
+/-- a grammar with one entry, count 5 -/
+def exG : Grammar := Grammar.add [] exF exL (.ctx ["S2".toList]) 5
+
+example : exT.noEmpty = true ∧ exT.leafNums.Nodup ∧ exT.leafNums ≠ [] := by decide
+example : funcOf exT = exF ∧ linOf exT = exL := by decide
+
 /-! ### the nested-dict update adds exactly n to the addressed entry and to nothing else -/
 
 theorem add_gramCount_self (g : Grammar) (f : Func) (l : Lin) (v : VertKey) (n : Nat) :
@@ -47,12 +70,27 @@ theorem add_gramCount_other (g : Grammar) (f f' : Func) (l l' : Lin) (v v' : Ver
       | some ls => simp
   · rw [get?_upsert_other _ _ _ hf]
 
+example : gramCount exG exF exL (.ctx ["S2".toList]) = 5 ∧
+    gramCount (exG.add exF exL (.ctx ["S2".toList]) 2) exF exL (.ctx ["S2".toList]) = 7 := by decide
+example : (exF, exL, VertKey.default) ≠ (exF, exL, VertKey.ctx ["S2".toList]) := by decide
+/-- adding to another vertical context of the same rule leaves the entry alone, and creates the new one -/
+example : gramCount (exG.add exF exL .default 2) exF exL (.ctx ["S2".toList]) = 5 ∧
+    gramCount (exG.add exF exL .default 2) exF exL .default = 2 := by decide
+
 theorem add_total (g : Grammar) (f : Func) (l : Lin) (v : VertKey) (n : Nat) :
     Grammar.total (g.add f l v n) = Grammar.total g + n :=
   grammar_add_total g f l v n
 
+example : Grammar.total exG = 5 ∧ Grammar.total (exG.add exF [] .default 2) = 7 ∧
+    Grammar.total (exG.add exF exL (.ctx ["S2".toList]) 2) = 7 := by decide
+
 theorem lex_add_total (x : Lexicon) (w t : Str) (n : Nat) : Lexicon.total (x.add w t n) = Lexicon.total x + n :=
   lexicon_add_total x w t n
+
+/-- `it` seen twice as `N`, once as `PRON` -/
+def exX : Lexicon := (Lexicon.add [] "it".toList "N".toList 2).add "it".toList "PRON".toList 1
+example : Lexicon.total exX = 3 ∧ Lexicon.total (exX.add "it".toList "N".toList 4) = 7 ∧
+    Lexicon.total (exX.add "he".toList "N".toList 4) = 7 := by decide
 
 theorem lex_add_count_self (x : Lexicon) (w t : Str) (n : Nat) : lexCount (x.add w t n) w t = lexCount x w t + n := by
   unfold lexCount Lexicon.add
@@ -76,6 +114,12 @@ theorem lex_add_count_other (x : Lexicon) (w t w' t' : Str) (n : Nat) (h : (w', 
     | some ls => simp
   · rw [get?_upsert_other _ _ _ hw]
 
+example : lexCount exX "it".toList "N".toList = 2 ∧ lexCount (exX.add "it".toList "N".toList 4) "it".toList "N".toList = 6 := by
+  decide
+example : ("it".toList, "PRON".toList) ≠ ("it".toList, "N".toList) := by decide
+example : lexCount (exX.add "it".toList "N".toList 4) "it".toList "PRON".toList = 1 ∧
+    lexCount (exX.add "he".toList "N".toList 4) "it".toList "N".toList = 2 := by decide
+
 /-! ### one rule occurrence per constituent, one lexicon occurrence per token -/
 
 theorem events_rules (ctx : List Str) (t : Tree) (h : t.noEmpty = true) :
@@ -87,6 +131,10 @@ theorem events_lex (ctx : List Str) (t : Tree) (h : t.noEmpty = true) :
     ((events ctx t).filter (fun e => !isRule e)).length = t.leafNums.length := by
   rw [← List.countP_eq_length_filter]
   exact events_lex_countP t ctx h
+
+/-- three constituents, six tokens -/
+example : ((events [] exT).filter isRule).length = 3 ∧ (exT.subtrees.filter fun s => !s.isLeaf).length = 3 ∧
+    ((events [] exT).filter (fun e => !isRule e)).length = 6 ∧ exT.leafNums.length = 6 := by decide
 
 theorem extract_total (t : Tree) (st : Grammar × Lexicon) (h : t.noEmpty = true) :
     Grammar.total (extract t st).1 = Grammar.total st.1 + (t.subtrees.filter fun s => !s.isLeaf).length ∧
@@ -120,6 +168,14 @@ theorem extractAll_total (ts : List Tree) (h : ∀ t ∈ ts, t.noEmpty = true) :
   rw [h1, h2]
   simp [Grammar.total, Grammar.entries, Lexicon.total]
 
+example : ∀ t ∈ [exT, exT], t.noEmpty = true := by decide
+example : Grammar.total (extractAll [exT, exT]).1 = 6 ∧ Lexicon.total (extractAll [exT, exT]).2 = 12 := by
+  obtain ⟨h1, h2⟩ := extractAll_total [exT, exT] (by decide)
+  exact ⟨h1.trans (by decide), h2.trans (by decide)⟩
+/-- the two occurrences of `it/N` and the S rule with its vertical context `S2` in the extracted tables -/
+example : lexCount (extractAll [exT]).2 "it".toList "N".toList = 2 ∧
+    gramCount (extractAll [exT]).1 exF exL (.ctx ["S2".toList]) = 1 := by decide
+
 /-! ### the rule of a node -/
 
 theorem funcOf_spec (t : Tree) : funcOf t = t.fields.label :: (children t).map (·.fields.label) := rfl
@@ -129,6 +185,9 @@ theorem linOf_length (t : Tree) : (linOf t).length = t.blocks.length :=
 
 theorem fanOut_head (t : Tree) : (fanOut (linOf t)).head? = some t.blocks.length := by
   simp [fanOut, linOf_length]
+
+example : (children exT).map leftmost = [1, 2, 6] ∧ exT.blocks = [[1, 2, 3, 4], [6, 7]] ∧
+    fanOut (linOf exT) = [2, 2, 1, 1] := by decide
 
 /-- context-free iff continuous, for one tree -/
 theorem linOf_cf_iff (f : Fields) (ks : List Tree) (h : (node f ks).leafNums ≠ []) :
@@ -141,5 +200,48 @@ theorem linOf_cf_iff (f : Fields) (ks : List Tree) (h : (node f ks).leafNums ≠
   | cons a l =>
     have := TT.Props.C16.blocksOf_length_pos a l
     omega
+
+/-- the root and the VP are discontinuous, the NP is not -/
+example : (linOf exT).length = 2 ∧ gapDegreeNode exT = 1 ∧
+    (linOf exT.kids[2]!).length = 1 ∧ gapDegreeNode exT.kids[2]! = 0 := by decide
+
+set_option linter.unusedVariables false in
+/-- the heart of C06: instantiating the extracted linearization with the children's blocks gives the node's blocks,
+    every block of every child used exactly once and in order.
+    (`hne` is not needed: see `TT.Lemmas.Extract.nodeRuleOK_linOf`.) -/
+theorem linOf_reconstructs (f : Fields) (ks : List Tree) (hne : (node f ks).noEmpty = true)
+    (hn : (node f ks).leafNums.Nodup) : nodeRuleOK (node f ks) (linOf (node f ks)) = true :=
+  nodeRuleOK_linOf f ks hn
+
+/-- at the root: `S(x0 y0 x1, z0) <- VP(x0, x1) N(y0) NP(z0)`; at the VP: `VP(x0, y0 z0) <- V(x0) N(y0) ADV(z0)` -/
+example : linOf exT = [[(0, 0), (1, 0), (0, 1)], [(2, 0)]] ∧
+    linOf exT.kids[0]! = [[(0, 0)], [(1, 0), (2, 0)]] := by decide
+example : instLin (linOf exT) ((children exT).map Tree.blocks) = some [[1, 2, 3, 4], [6, 7]] := by decide
+example : nodeRuleOK exT (linOf exT) = true :=
+  linOf_reconstructs _ _ (by decide) (by decide)
+/-- a wrong linearization (blocks of the VP swapped) is rejected -/
+example : nodeRuleOK exT [[(0, 1), (1, 0), (0, 0)], [(2, 0)]] = false := by decide
+
+/-- corollary: in a tree with pairwise distinct token numbers every constituent's extracted rule
+    reconstructs its blocks (this is the first clause of `extractOK`, rule by rule) -/
+theorem linOf_reconstructs_subtrees (t : Tree) (hn : t.leafNums.Nodup) :
+    ∀ s ∈ subtrees t, s.isLeaf = false → nodeRuleOK s (linOf s) = true := by
+  induction t using TT.Lemmas.WF.tree_ind with
+  | hl n f =>
+    intro s hs hl
+    simp only [subtrees, List.mem_singleton] at hs
+    subst hs
+    simp [isLeaf] at hl
+  | hn f ks ih =>
+    intro s hs hl
+    rcases (TT.Lemmas.WF.mem_subtrees_node f ks s).1 hs with rfl | ⟨k, hk, hsk⟩
+    · exact nodeRuleOK_linOf f ks hn
+    · exact ih k hk ((TT.Lemmas.WF.leafNums_sublist_of_mem f ks k hk).nodup hn) s hsk hl
+
+example : (exT.subtrees.filter fun s => !s.isLeaf).all (fun s => nodeRuleOK s (linOf s)) = true := by decide
+
+/-- the fan-out recorded for the LHS is the number of blocks, and each RHS element is used as often as it
+    has blocks (second part of `wfLin`), here on the example -/
+example : fanOut (linOf exT) = 2 :: (children exT).map (·.blocks.length) := by decide
 
 end TT.Props.C06
